@@ -18,7 +18,8 @@ What the code does, and the model follows:
   call; an error is counted, the call fails with all-attempts-failed when `max` errors have been
   received, carrying the primary's error), then, if the hedge timer has elapsed and fewer than
   `max` attempts exist, the next attempt is started and the timer is re-armed **from now** with
-  `delay(n)` for attempt number `n` (a zero delay fires in the same poll). A failed primary does
+  `delay(n)` for attempt number `n` (a zero delay fires in the same poll; a delay that cannot be
+  added to an `Instant` — `Duration::MAX` — never fires: `sleep` saturates its deadline). A failed primary does
   not bring the hedge forward. The `else` arm and the code after the loop are unreachable in
   latency mode (the function itself holds a sender, so `recv` never yields `None` there);
 * drain phase: `Ok` resolves; errors are remembered (first one received); when the channel is
@@ -51,6 +52,11 @@ structure Cfg where
   /-- `delay n` = configured delay **in microseconds** before attempt number `n ≥ 1`
   (`HedgeDelay::get_delay(n)`), counted from the start of attempt `n - 1` -/
   delay : Nat → Nat
+  /-- `never n`: `delay n` is a duration that cannot be added to an `Instant` (`Duration::MAX`,
+  `Duration::from_secs(u64::MAX)`, anything from 2^63 s on): `tokio::time::sleep` then sleeps "for ever" (its
+  deadline saturates to a far future, 30 years on), so the timer armed for attempt `n` is **never due**.
+  `delay n` still carries the duration's magnitude (it is positive: the mode test sees a non-zero duration). -/
+  never : Nat → Bool := fun _ => false
 
 /-- milliseconds after which a timer armed (at a whole-millisecond instant) with `delay n` fires:
 tokio rounds the deadline up to the next millisecond -/
@@ -269,11 +275,13 @@ def recvLat (cfg : Cfg) (now c : Nat) : List Attempt → Call → Call × List E
         { popMsg cl m rest with firstErr := primaryErr m kd cl.firstErr, errors := cl.errors + 1 }
     | _ => recvLat cfg now c rest (popMsg cl m rest)
 
-/-- latency mode, second select arm, repeated while the (re-armed) timer has elapsed -/
+/-- latency mode, second select arm, repeated while the (re-armed) timer has elapsed. The timer that is running
+while `n` attempts exist is the one armed with `delay n` (for attempt number `n`): it is never due when that
+duration is not representable as a deadline (`cfg.never n`) — `nextHedgeAt` is then meaningless. -/
 def spawnLat (cfg : Cfg) (now c : Nat) : Nat → W → W
   | 0, w => w
   | fuel + 1, w =>
-    if w.cl.attempts.length < cfg.max ∧ w.cl.nextHedgeAt ≤ now then
+    if w.cl.attempts.length < cfg.max ∧ w.cl.nextHedgeAt ≤ now ∧ cfg.never w.cl.attempts.length = false then
       let w := startAttempt now c w
       let n := w.cl.attempts.length
       spawnLat cfg now c fuel
@@ -438,18 +446,27 @@ def parseOp (ws : List String) : Option Op :=
   | "adv" :: ms :: rest => some (.adv (ms.toNat?.getD 0) (parseOrder rest))
   | _ => none
 
+/-- one configured delay: microseconds and "not representable as a deadline". A number is in the header's unit
+(`mul` µs); `max` = `Duration::MAX`, `smax` = `Duration::from_secs(u64::MAX)`, `hmax` = `Duration::from_secs(1 << 63)`
+(the smallest whole number of seconds that no `Instant` can be moved by), whatever the unit -/
+def delayTok (mul : Nat) (s : String) : Option (Nat × Bool) :=
+  if s = "max" then some ((2 ^ 64 - 1) * 1000000 + 999999, true)
+  else if s = "smax" then some ((2 ^ 64 - 1) * 1000000, true)
+  else if s = "hmax" then some (2 ^ 63 * 1000000, true)
+  else s.toNat?.map fun v => (mul * v, false)
+
 /-- header `max=<n> d=<ms> [ds=<ms>,…] [kind=fixed|imm|fn] [unit=ms|us]`; the builder clamps `max`
-to ≥ 1; `unit=us`: `d` and `ds` are microseconds -/
+to ≥ 1; `unit=us`: `d` and `ds` are microseconds; `d` and the entries of `ds` may be `max`/`smax`/`hmax` -/
 def cfgOf (kv : Kv) : Cfg :=
-  let d := kv.nat "d" 0
-  let ds := ((kv.str "ds" "").splitOn ",").filterMap (·.toNat?)
-  let kind := kv.str "kind" "fixed"
   let mul := if kv.str "unit" "ms" = "us" then 1 else 1000
-  { max := Nat.max (kv.nat "max" 2) 1,
-    delay := fun n =>
-      if kind = "imm" then 0
-      else if kind = "fn" then (if 1 ≤ n then mul * ds.getD (n - 1) d else mul * d)
-      else mul * d }
+  let d := (delayTok mul (kv.str "d" "0")).getD (0, false)
+  let ds := ((kv.str "ds" "").splitOn ",").filterMap (delayTok mul)
+  let kind := kv.str "kind" "fixed"
+  let dl := fun (n : Nat) =>
+    if kind = "imm" then (0, false)
+    else if kind = "fn" then (if 1 ≤ n then ds.getD (n - 1) d else d)
+    else d
+  { max := Nat.max (kv.nat "max" 2) 1, delay := fun n => (dl n).1, never := fun n => (dl n).2 }
 
 def machine : Machine where
   σ := Cfg × State
